@@ -76,7 +76,7 @@ class _Fxp(Contract):
                     if k.startswith("float") and FLOATS[int(k[5:])] * (1 << r) != int(FLOATS[int(k[5:])] * (1 << r)):
                         continue
                     neg_div = k == "float1" and self.op in ("__truediv__", "__floordiv__", "__mod__")
-                    out.append(dict(mode=m, kind=k, res=r, bits=4, **({"raises_only": True} if neg_div else {})))
+                    out.append(dict(mode=m, kind=k, res=r, bits=r + 4, **({"raises_only": True} if neg_div else {})))
         return out
 
     def setup(self, c, cfg):
